@@ -1,79 +1,134 @@
 (* Props/C16.v -- property C16: runs are reproducible from configuration and seed alone.
    Only statements; each is closed by a lemma of Proofs/Rng.v.  The machine (Model/Rng.v) is
-   parametric in the generator state types, the draw functions, the sampling program of the
+   parametric in the state types, the draw functions, the start-up and sampling PROGRAMS of the
    configuration, the request construction, the user's evaluator, the optimizer strategy and the exit
-   code: the theorems hold for ALL of them, all step budgets, all schedules of foreign operations on
-   the process-global generator (any number, anywhere: before the run, between evaluations, inside
-   the evaluator) and all initial global states.
+   code: the theorems hold for ALL of them, all step budgets, all schedules of foreign operations on the
+   process-wide generator-like state G (any number, anywhere: before the run, between evaluations, inside
+   the evaluator, including complete other runs) and all initial states of G; the table-like state T
+   (module-level containers, class attributes, cached plug-in instances, the configuration object) may
+   be read by a run at will.
 
-   PARTIAL: the premise "the run itself did not touch the global generator" (o_touches = 0) is what
-   the harness monitors on the real code; state hidden inside CPython/NumPy/SciPy other than the legacy
-   global generator is outside this model and is covered only by the byte-exact trace comparison. *)
+   PARTIAL: the premise "the run itself did not touch G and did not write T" (o_touches = 0) is what the
+   harness monitors on the real code, for the parts of G and T it fingerprints (NumPy's legacy global
+   generator, the random_state of the scipy.stats distributions, module-level containers / class
+   attributes of ropt's modules, attributes of the cached plug-in instances, the configuration object);
+   state hidden elsewhere in CPython/NumPy/SciPy is outside this model and is covered only by the
+   byte-exact trace comparison across schedules. *)
 From Coq Require Import List ZArith Bool Arith.
 From Ropt Require Import Model.Rng Proofs.Rng.
 Import ListNotations.
 
 Section C16.
-  Variables G L V : Type.
+  Variables G T L V : Type.
   Variable drawG : G -> G * V.
   Variable drawL : L -> L * V.
   Variables Cfg X Req Res Smp : Type.
   Variable seed_of_config : Cfg -> L.
-  Variable sampler : Cfg -> prog G V Smp.
+  Variable init : Cfg -> prog G T V unit.
+  Variable sampler : Cfg -> prog G T V Smp.
   Variable request : Cfg -> X -> option Smp -> Req.
   Variable evaluator : Req -> Res.
   Variable decide : Cfg -> list (Req * Res) -> option (bool * X).
   Variable exit_code : Cfg -> list (Req * Res) -> Z.
 
-  Notation run := (run G L V drawG drawL Cfg X Req Res Smp seed_of_config sampler request evaluator decide exit_code).
-  Notation process := (process G L V drawG drawL Cfg X Req Res Smp seed_of_config sampler request evaluator decide exit_code).
+  Notation run := (run G T L V drawG drawL Cfg X Req Res Smp seed_of_config init sampler request evaluator decide exit_code).
+  Notation process := (process G T L V drawG drawL Cfg X Req Res Smp seed_of_config init sampler request evaluator decide exit_code).
+  Notation run_as_foreign := (run_as_foreign G T L V drawG drawL Cfg X Req Res Smp seed_of_config init sampler request evaluator decide exit_code).
+  Notation obs o := (o_trace _ _ _ _ o, o_exit _ _ _ _ o, o_complete _ _ _ _ o).
 
-  (* same requests, same results, same exit code, whatever other code does to the global generator *)
-  Theorem C16_non_interference : forall fuel cfg s1 s2 g1 g2,
-    o_touches _ _ _ (run fuel cfg s1 g1) = O ->
-    (o_trace _ _ _ (run fuel cfg s2 g2), o_exit _ _ _ (run fuel cfg s2 g2), o_complete _ _ _ (run fuel cfg s2 g2)) =
-    (o_trace _ _ _ (run fuel cfg s1 g1), o_exit _ _ _ (run fuel cfg s1 g1), o_complete _ _ _ (run fuel cfg s1 g1))
-    /\ o_touches _ _ _ (run fuel cfg s2 g2) = O.
-  Proof. exact (non_interference G L V drawG drawL Cfg X Req Res Smp seed_of_config sampler request evaluator decide exit_code). Qed.
+  (* same requests, same results, same exit code, whatever other code does to the generator-like state;
+     and the tables are handed back unchanged *)
+  Theorem C16_non_interference : forall fuel cfg s1 s2 g1 g2 t,
+    o_touches _ _ _ _ (run fuel cfg s1 g1 t) = O ->
+    obs (run fuel cfg s2 g2 t) = obs (run fuel cfg s1 g1 t)
+    /\ o_touches _ _ _ _ (run fuel cfg s2 g2 t) = O
+    /\ o_table _ _ _ _ (run fuel cfg s2 g2 t) = t /\ o_table _ _ _ _ (run fuel cfg s1 g1 t) = t.
+  Proof. exact (non_interference G T L V drawG drawL Cfg X Req Res Smp seed_of_config init sampler request evaluator decide exit_code). Qed.
+
+  (* the run is a good citizen: it leaves the generator-like state exactly as the foreign operations made
+     it (two schedule blocks consumed per evaluator call, nothing else) *)
+  Theorem C16_leaves_global_alone : forall fuel cfg s g t,
+    o_touches _ _ _ _ (run fuel cfg s g t) = O ->
+    o_global _ _ _ _ (run fuel cfg s g t) =
+    apply_foreign G (concat (firstn (2 * length (o_trace _ _ _ _ (run fuel cfg s g t))) s)) g.
+  Proof. exact (leaves_global_alone G T L V drawG drawL Cfg X Req Res Smp seed_of_config init sampler request evaluator decide exit_code). Qed.
+
+  (* arbitrary interleavings: complete other (touch-free) runs executed at any schedule points of a run --
+     inside its evaluator, between its evaluations, any number, any configurations -- change nothing *)
+  Theorem C16_interleaved_runs : forall fuel cfg s g t (others : list (list (nat * Cfg * schedule G))) g',
+    o_touches _ _ _ _ (run fuel cfg s g t) = O ->
+    Forall (Forall (fun j : nat * Cfg * schedule G => o_touches _ _ _ _ (run (fst (fst j)) (snd (fst j)) (snd j) g t) = O)) others ->
+    let s' := map (map (fun j : nat * Cfg * schedule G => run_as_foreign (fst (fst j)) (snd (fst j)) (snd j) t)) others in
+    obs (run fuel cfg s' g' t) = obs (run fuel cfg s g t) /\
+    o_table _ _ _ _ (run fuel cfg s' g' t) = t /\
+    Forall (Forall (fun j : nat * Cfg * schedule G => forall g0, o_table _ _ _ _ (run (fst (fst j)) (snd (fst j)) (snd j) g0 t) = t)) others.
+  Proof. exact (interleaved_runs G T L V drawG drawL Cfg X Req Res Smp seed_of_config init sampler request evaluator decide exit_code). Qed.
 
   (* the k-th run of a process equals the same configuration run alone in a fresh process *)
-  Theorem C16_fresh_per_run : forall before after fuel cfg s g o s' g',
-    nth_error (process (before ++ (fuel, cfg, s) :: after) g) (length before) = Some o ->
-    o_touches _ _ _ o = O ->
-    (o_trace _ _ _ (run fuel cfg s' g'), o_exit _ _ _ (run fuel cfg s' g'), o_complete _ _ _ (run fuel cfg s' g')) =
-    (o_trace _ _ _ o, o_exit _ _ _ o, o_complete _ _ _ o).
-  Proof. exact (fresh_per_run G L V drawG drawL Cfg X Req Res Smp seed_of_config sampler request evaluator decide exit_code). Qed.
+  Theorem C16_fresh_per_run : forall before after fuel cfg s g t o s' g',
+    Forall (fun o => o_touches _ _ _ _ o = O) (process before g t) ->
+    nth_error (process (before ++ (fuel, cfg, s) :: after) g t) (length before) = Some o ->
+    o_touches _ _ _ _ o = O ->
+    obs (run fuel cfg s' g' t) = obs o.
+  Proof. exact (fresh_per_run G T L V drawG drawL Cfg X Req Res Smp seed_of_config init sampler request evaluator decide exit_code). Qed.
 
-  (* changing the seed changes the first perturbation sample -- PARTIAL: both injectivity premises are
-     facts about NumPy (default_rng, the distributions) that are checked on the implementation only *)
-  Theorem C16_seed_matters_partial : forall (seed : Cfg -> Z) cfg1 cfg2 g,
+  (* a process of touch-free runs: every outcome is the stand-alone outcome of its configuration (so the
+     order of the jobs, and what each schedule did to G, is irrelevant) and the tables never change *)
+  Theorem C16_process_independent : forall jobs g t g',
+    Forall (fun o => o_touches _ _ _ _ o = O) (process jobs g t) ->
+    map (fun o => obs o) (process jobs g t) =
+      map (fun j : nat * Cfg * schedule G => obs (run (fst (fst j)) (snd (fst j)) [] g' t)) jobs /\
+    Forall (fun o => o_table _ _ _ _ o = t) (process jobs g t).
+  Proof. exact (process_independent G T L V drawG drawL Cfg X Req Res Smp seed_of_config init sampler request evaluator decide exit_code). Qed.
+
+  (* changing the seed changes the first perturbation sample -- PARTIAL: the injectivity premises are
+     facts about NumPy (default_rng, engine construction, the distributions) that are checked on the
+     implementation only *)
+  Theorem C16_seed_matters_partial : forall (seed : Cfg -> Z) cfg1 cfg2 g t,
     (forall c1 c2, seed c1 <> seed c2 -> seed_of_config c1 <> seed_of_config c2) ->
-    (forall l1 l2 a1 a2 g1 g2 g1' g2' l1' l2' t1 t2, l1 <> l2 ->
-        exec G L V drawG drawL (sampler cfg1) g1 l1 = (g1', l1', a1, t1) ->
-        exec G L V drawG drawL (sampler cfg2) g2 l2 = (g2', l2', a2, t2) -> a1 <> a2) ->
+    (forall l1 l2 g1 g2 t1 t2 g1' g2' t1' t2' l1' l2' u1 u2 k1 k2, l1 <> l2 ->
+        exec G T L V drawG drawL (init cfg1) g1 t1 l1 = (g1', t1', l1', u1, k1) ->
+        exec G T L V drawG drawL (init cfg2) g2 t2 l2 = (g2', t2', l2', u2, k2) -> l1' <> l2') ->
+    (forall l1 l2 a1 a2 g1 g2 t1 t2 g1' g2' t1' t2' l1' l2' k1 k2, l1 <> l2 ->
+        exec G T L V drawG drawL (sampler cfg1) g1 t1 l1 = (g1', t1', l1', a1, k1) ->
+        exec G T L V drawG drawL (sampler cfg2) g2 t2 l2 = (g2', t2', l2', a2, k2) -> a1 <> a2) ->
     seed cfg1 <> seed cfg2 ->
-    first_sample G L V drawG drawL Cfg Smp seed_of_config sampler cfg1 g <>
-    first_sample G L V drawG drawL Cfg Smp seed_of_config sampler cfg2 g.
-  Proof. exact (seed_matters G L V drawG drawL Cfg Smp seed_of_config sampler). Qed.
+    first_sample G T L V drawG drawL Cfg Smp seed_of_config init sampler cfg1 g t <>
+    first_sample G T L V drawG drawL Cfg Smp seed_of_config init sampler cfg2 g t.
+  Proof. exact (seed_matters G T L V drawG drawL Cfg Smp seed_of_config init sampler). Qed.
 End C16.
 
-(* the premise is necessary: a sampler drawing from the global generator is counted and interferes *)
+(* the premise is necessary: a sampler drawing from the global generator is counted and interferes ... *)
 Theorem C16_global_sampler_interferes :
-  o_trace _ _ _ (bad_run 1%Z) <> o_trace _ _ _ (bad_run 2%Z) /\ o_touches _ _ _ (bad_run 1%Z) = 1.
+  o_trace _ _ _ _ (bad_run 1%Z) <> o_trace _ _ _ _ (bad_run 2%Z) /\ o_touches _ _ _ _ (bad_run 1%Z) = 1.
 Proof. exact global_sampler_interferes. Qed.
+
+(* ... and so is a run that writes the tables (a module-level default updated in place, a generator cached
+   on the configuration object, a class attribute set by __init__): two runs of one configuration in one
+   process differ, and both writes are counted *)
+Theorem C16_table_writer_interferes :
+  map (o_trace _ _ _ _) (leaky_process 0%Z 0%Z) = [[(6, 6)]; [(7, 7)]]%Z /\
+  map (o_touches _ _ _ _) (leaky_process 0%Z 0%Z) = [1; 1] /\
+  map (o_table _ _ _ _) (leaky_process 0%Z 0%Z) = [1; 2]%Z.
+Proof. exact table_writer_interferes. Qed.
 
 (* non-vacuity: a concrete machine (the checker's replay instance) meets the premise, and reseeding the
    global generator before, between and inside evaluations leaves trace and exit code unchanged *)
 Example C16_example :
   let c := {| s_calls := [(false, 11, 21); (true, 12, 22); (false, 13, 23); (true, 14, 24)]%Z; s_exit := 5%Z |} in
   let sched := [[fun _ => 7%Z]; [Z.succ; Z.succ]; []; [fun _ => 0%Z]; [Z.succ]] in
-  o_touches _ _ _ (replay c [] 0%Z) = O /\
-  o_trace _ _ _ (replay c sched 42%Z) = [(11, 21); (12, 22); (13, 23); (14, 24)]%Z /\
-  o_exit _ _ _ (replay c sched 42%Z) = 5%Z /\ o_complete _ _ _ (replay c sched 42%Z) = true /\
-  o_global _ _ _ (replay c sched 42%Z) <> o_global _ _ _ (replay c [] 0%Z).
+  o_touches _ _ _ _ (replay c [] 0%Z 3%Z) = O /\
+  o_trace _ _ _ _ (replay c sched 42%Z 3%Z) = [(11, 21); (12, 22); (13, 23); (14, 24)]%Z /\
+  o_exit _ _ _ _ (replay c sched 42%Z 3%Z) = 5%Z /\ o_complete _ _ _ _ (replay c sched 42%Z 3%Z) = true /\
+  o_table _ _ _ _ (replay c sched 42%Z 3%Z) = 3%Z /\
+  o_global _ _ _ _ (replay c sched 42%Z 3%Z) <> o_global _ _ _ _ (replay c [] 0%Z 3%Z).
 Proof. cbv zeta. repeat split; try (vm_compute; reflexivity). vm_compute. discriminate. Qed.
 
 Print Assumptions C16_non_interference.
+Print Assumptions C16_leaves_global_alone.
+Print Assumptions C16_interleaved_runs.
 Print Assumptions C16_fresh_per_run.
+Print Assumptions C16_process_independent.
 Print Assumptions C16_seed_matters_partial.
 Print Assumptions C16_global_sampler_interferes.
+Print Assumptions C16_table_writer_interferes.
